@@ -201,11 +201,17 @@ func NewPropFindResponse(path string, propfind *PropFind, props map[xml.Name]Pro
 			}
 		}
 	} else if prop := propfind.Prop; prop != nil {
+		seen := make(map[xml.Name]bool)
 		for _, raw := range prop.Raw {
 			xmlName, ok := raw.XMLName()
 			if !ok {
 				continue
 			}
+			// a property named more than once is still reported once
+			if seen[xmlName] {
+				continue
+			}
+			seen[xmlName] = true
 
 			emptyVal := NewRawXMLElement(xmlName, nil, nil)
 
